@@ -200,7 +200,67 @@ fn check_htyp_in(
     Ok(())
 }
 
+/// The message-info byte inside a message: decoded by the parser, re-encoded by building a message again from the
+/// decoded parts (`MessageConfig` + `Message::new`, the crate's construction path) and serialising it.
+fn check_msin_in_message(b: u8) -> Result<(), Violation> {
+    use dlt_core::dlt::{ExtendedHeaderConfig, Message, MessageConfig};
+    let mstp = (b >> 1) & 7;
+    // payloads the kind admits: verbose -> no arguments; control -> service byte (equal to / different from the MTIN
+    // nibble, above 15) + data; other non-verbose -> message id + data
+    let payloads: Vec<Vec<u8>> = if b & 1 != 0 {
+        vec![vec![]]
+    } else if mstp == 3 {
+        vec![vec![b >> 4, 9, 8], vec![0x03, 1], vec![0x13], vec![0x11, 7, 7, 7], vec![0xff, 0]]
+    } else {
+        vec![vec![1, 2, 3, 4, 5, 6]]
+    };
+    for (big, payload) in payloads.iter().flat_map(|p| [(false, p), (true, p)]) {
+        let mut bytes = vec![0x21 | if big { MSBF } else { 0 }, 0x33, 0, 0, b, 0];
+        bytes.extend_from_slice(b"APP\0CTX\0");
+        bytes.extend_from_slice(payload);
+        let len = bytes.len() as u16;
+        bytes[2..4].copy_from_slice(&len.to_be_bytes());
+        let parsed = guard(|| dlt_message(&bytes, None, false).map(|(r, pm)| (r.len(), pm))).map_err(|p| Violation::from_panic(&format!("dlt_message on {}", hex_short(&bytes)), &p))?;
+        let m = match parsed {
+            Ok((0, ParsedMessage::Item(m))) => m,
+            other => return Err(viol!("msin:message:parse", "message with MSIN {:#04x} ({}) did not parse: {}", b, hex_short(&bytes), short_dbg(&other))),
+        };
+        let Some(ext) = m.extended_header.clone() else {
+            return Err(viol!("msin:message:parse", "message with MSIN {:#04x} parsed without extended header", b));
+        };
+        if ext.message_type != message_type_of(b) || ext.verbose != (b & 1 != 0) {
+            return Err(viol!("msin:message:decode", "MSIN {:#04x} inside a message decoded to {:?} (verbose {}), the layout prescribes {:?}", b, ext.message_type, ext.verbose, message_type_of(b)));
+        }
+        let rebuilt = guard(|| {
+            Message::new(
+                MessageConfig {
+                    version: m.header.version,
+                    counter: m.header.message_counter,
+                    endianness: m.header.endianness,
+                    ecu_id: m.header.ecu_id.clone(),
+                    session_id: m.header.session_id,
+                    timestamp: m.header.timestamp,
+                    payload: m.payload.clone(),
+                    extended_header_info: Some(ExtendedHeaderConfig { message_type: ext.message_type.clone(), app_id: ext.application_id.clone(), context_id: ext.context_id.clone() }),
+                },
+                None,
+            )
+            .as_bytes()
+        })
+        .map_err(|p| Violation::from_panic("Message::new(..).as_bytes() from the decoded parts", &p))?;
+        if rebuilt.get(4) != Some(&b) {
+            return Err(viol!(
+                "msin:message:reencode",
+                "MSIN {:#04x}: a message built again from the decoded parts (payload {}) carries message info {:?}; {} -> {}",
+                b, hex_short(payload), rebuilt.get(4), hex_short(&bytes), hex_short(&rebuilt)
+            ));
+        }
+    }
+    Ok(())
+}
+
 fn check_msin(b: u8) -> CheckResult {
+    check_msin_in_message(b)?;
     let want = message_type_of(b);
     let got = guard(|| MessageType::try_from(b))
         .map_err(|p| Violation::from_panic(&format!("MessageType::try_from({:#04x})", b), &p))?;
